@@ -93,6 +93,7 @@ type genHistEnt struct {
 	KeyKind    string `json:"keyKind"`
 	HashLine   string `json:"hashLine"`
 	CertSha    string `json:"certSha"`
+	ReqSha     string `json:"reqSha"` // SHA-1 of the request block's DER ("" if none): the request must stay THE request
 }
 
 type genHist struct {
@@ -122,6 +123,7 @@ type genFacts struct {
 	HashLine       string   `json:"hashLine"`
 	IssuerSkiEqAki string   `json:"issuerSkiEqAki"` // child's AKI == issuer's SKI: "yes" | "no" | "n/a"
 	SigOkWith      string   `json:"sigOkWith"`      // "yes" | "no" | "n/a": verified with the algorithm given by the case (verifyAlg)
+	ReqSha         string   `json:"reqSha"`         // SHA-1 of the CERTIFICATE REQUEST block's DER ("" if none)
 	KeyId          string   `json:"keyId"`          // identity of the key material in the file
 	CertKeyId      string   `json:"certKeyId"`      // identity of the certificate's public key ("" if it is no valid key)
 }
@@ -289,6 +291,9 @@ func genOne(cs *genCase) *genOut {
 					}
 				}
 				he.KeyId, he.CertKeyId, he.HasPrivate, he.HasRequest, he.SigOk, he.KeyKind, he.HashLine = fx.KeyId, fx.CertKeyId, p.Key != nil, p.Csr != nil, fx.SigOK, fx.KeyKind, fx.HashLine
+				if p.Csr != nil {
+					he.ReqSha = project.SHA1Hex(p.Csr)
+				}
 			}
 			h.Ents = append(h.Ents, he)
 		}
@@ -652,6 +657,14 @@ func rawName(cn, strType string) []byte {
 	return b
 }
 
+// a request as other tools make them: two attributes (a long unstructuredName in front of the extensionRequest for a
+// DNS name) - NOT in the order a DER SET OF sorter would give them, so a re-marshalled request differs from the original
+func richCsrTemplate(cn string) *x509.CertificateRequest {
+	return &x509.CertificateRequest{Subject: pkix.Name{CommonName: cn}, DNSNames: []string{"req.example"},
+		Attributes: []pkix.AttributeTypeAndValueSET{{Type: asn1.ObjectIdentifier{1, 2, 840, 113549, 1, 9, 2},
+			Value: [][]pkix.AttributeTypeAndValue{{{Type: asn1.ObjectIdentifier{1, 2, 840, 113549, 1, 9, 2}, Value: "an unstructured name that is longer than the extension request attribute behind it"}}}}}}
+}
+
 // a brainpool key made with package ecv (the standard library does not know these curves)
 type rawECKey struct {
 	curve *ecv.Curve
@@ -759,7 +772,7 @@ func makeFixture(m *genMake, keys map[string]any) []byte {
 		pem.Encode(&bb, &pem.Block{Type: "CERTIFICATE", Bytes: der})
 		pem.Encode(&bb, &pem.Block{Type: "PRIVATE KEY", Bytes: marshalPKCS8Variant(key, m.Variant)})
 	case "csr":
-		der, err := x509.CreateCertificateRequest(crand.Reader, &x509.CertificateRequest{Subject: pkix.Name{CommonName: m.CN}}, key)
+		der, err := x509.CreateCertificateRequest(crand.Reader, richCsrTemplate(m.CN), key)
 		if err != nil {
 			panic(err)
 		}
